@@ -53,29 +53,43 @@ def feed(term, data, pens):
 
 
 def compare_terms(t1, t2, nrows, pens):
+    """-> list of (what, message, row): every kind of visible difference between the
+    incrementally rendered terminal t1 and the from-scratch terminal t2 (rows
+    0..nrows-1; rows above the origin are checked per operation: untouched)."""
     if t1.undef or t2.undef:
-        return "output left the defined VT100 subset (wide character on the right edge / unknown sequence)"
+        return [("undef", "output left the defined VT100 subset (wide character on the right edge / unknown sequence)", None)]
+    out = []
     if (t1.cx, t1.cy) != (t2.cx, t2.cy):
-        return "cursor at %r after incremental rendering, %r after drawing from scratch" % ((t1.cx, t1.cy), (t2.cx, t2.cy))
+        out.append(("cursor", "cursor at %r after incremental rendering, %r after drawing from scratch" % ((t1.cx, t1.cy), (t2.cx, t2.cy)), t1.cy))
     if t1.cvis != t2.cvis:
-        return "cursor visibility %d incremental vs %d from scratch" % (t1.cvis, t2.cvis)
+        out.append(("cvis", "cursor visibility %d incremental vs %d from scratch" % (t1.cvis, t2.cvis), None))
     if t1.pen != t2.pen:
-        return "pen left as %r incremental vs %r from scratch" % (pens.strs[t1.pen], pens.strs[t2.pen])
+        out.append(("pen", "pen left as %r incremental vs %r from scratch" % (pens.strs[t1.pen], pens.strs[t2.pen]), None))
     if t1.aw != t2.aw or t1.pending != t2.pending:
-        return "autowrap state differs"
-    for y in range(nrows):
+        out.append(("autowrap", "autowrap state differs", None))
+    done = False
+    for y in range(0, nrows):
         for x in range(t1.W):
             a, b = t1.cell(y, x), t2.cell(y, x)
             if not cell_equiv(a, b, pens):
-                return "cell (row %d, col %d): incremental shows %r pen %r, from scratch %r pen %r" % (
+                out.append(("cell", "cell (row %d, col %d): incremental shows %r pen %r, from scratch %r pen %r" % (
                     y, x, "".join(map(chr, a[0])), pens.strs[a[1]] if a[1] < len(pens.strs) else a[1],
-                    "".join(map(chr, b[0])), pens.strs[b[1]] if b[1] < len(pens.strs) else b[1])
-    return None
+                    "".join(map(chr, b[0])), pens.strs[b[1]] if b[1] < len(pens.strs) else b[1]), y))
+                done = True
+                break
+        if done:
+            break
+    return out
 
 
 def check_spec(spec, outs=None, pens=None):
-    """-> list of (step index, family, message); [] when the property holds on
-    this sequence.  `outs` = run_impl(spec) if already available."""
+    """-> list of (step index, family, message, info); [] when the property holds on
+    this sequence.  info = {"what": kind of difference, "row": row or None}.
+    `outs` = run_impl(spec) if already available.
+    A bare reset() is only in contract where the renderer is fresh (after a final
+    render, an erase, a reset or construction): elsewhere it redefines the origin
+    without moving the cursor, and the oracle stops judging until the next erase
+    or final render re-establishes a known state."""
     pens = pens or PenTable()
     if outs is None:
         outs = c06_impl.run_impl(spec, pens)
@@ -84,15 +98,21 @@ def check_spec(spec, outs=None, pens=None):
     feed(t, outs[0], pens)
     prev_h = 0
     last_size = None
+    fresh = True          # nothing remembered, cursor at the origin
+    contract = True       # False after a bare reset() in a non-fresh state
     for i, op in enumerate(spec["ops"]):
         t.maxrow = t.cy
+        t.minrow = t.cy
         t.written = set()
         scrolled0 = t.scrolled
         if op[0] == "render":
             _, cfg, done, W, H, scr = op
             t.W = W
             t.rows = H
+            above = [[t.cell(y, x) for x in range(W)] for y in (-2, -1)]
             feed(t, outs[i + 1], pens)
+            if contract and t.scrolled == scrolled0 and above != [[t.cell(y, x) for x in range(W)] for y in (-2, -1)]:
+                fails.append((i, "rows-owned", "a render changed cells above the origin", {"what": "rows-above", "row": None}))
             new_h = min(scr["height"], H)
             # from scratch: a fresh renderer on a fresh terminal
             sspec = {"fs": spec["fs"], "cfgs": spec["cfgs"], "ops": [op]}
@@ -101,39 +121,59 @@ def check_spec(spec, outs=None, pens=None):
             t2.rows = H
             feed(t2, souts[0], pens)
             feed(t2, souts[1], pens)
-            msg = compare_terms(t, t2, max(H, prev_h) + 2, pens)
-            if msg:
-                fails.append((i, "equiv-done" if done else "equiv", msg))
+            if contract:
+                for what, msg, row in compare_terms(t, t2, max(H, prev_h) + 2, pens):
+                    fails.append((i, "equiv-done" if done else "equiv", msg, {"what": what, "row": row}))
             owned = max(prev_h, new_h)
-            if any(y >= owned for y in t.written):
-                fails.append((i, "rows-owned", "cells written in rows %r, owned rows are 0..%d" % (sorted(t.written), owned - 1)))
+            if contract and any(y < 0 or y >= owned for y in t.written):
+                fails.append((i, "rows-owned", "cells written in rows %r, owned rows are 0..%d" % (sorted(t.written), owned - 1),
+                              {"what": "rows", "row": None}))
+            if contract and t.minrow < 0:
+                fails.append((i, "rows-owned", "the cursor went above the origin (row %d)" % t.minrow, {"what": "rows-above", "row": None}))
             resized = last_size is not None and last_size != (W, H)
             last_size = (W, H)
             if not done:
-                if t.scrolled != scrolled0 and not resized:
-                    fails.append((i, "scroll", "the terminal (%d rows) scrolled %d line(s) during a non-final render" % (H, t.scrolled - scrolled0)))
+                if contract and t.scrolled != scrolled0 and not resized:
+                    fails.append((i, "scroll", "the terminal (%d rows) scrolled %d line(s) during a non-final render" % (H, t.scrolled - scrolled0),
+                                  {"what": "scroll", "row": None}))
                 prev_h = new_h
+                fresh = False
             else:
                 exp_scroll = 1 if new_h >= H else 0     # the final newline may scroll a full terminal once
-                if t.scrolled - scrolled0 != exp_scroll and not resized:
-                    fails.append((i, "scroll", "the terminal (%d rows) scrolled %d line(s) during the final render of a %d-row output" % (H, t.scrolled - scrolled0, new_h)))
-                if (t.cx, t.cy) != (0, new_h - exp_scroll) or t.pen != 0 or t.aw != 1:
+                if contract and t.scrolled - scrolled0 != exp_scroll and not resized:
+                    fails.append((i, "scroll", "the terminal (%d rows) scrolled %d line(s) during the final render of a %d-row output" % (H, t.scrolled - scrolled0, new_h),
+                                  {"what": "scroll", "row": None}))
+                if contract and ((t.cx, t.cy) != (0, new_h - exp_scroll) or t.pen != 0 or t.aw != 1):
                     fails.append((i, "done-epilogue", "after the done render: cursor %r (expected (0, %d)), pen %r, autowrap %d" % (
-                        (t.cx, t.cy), new_h - exp_scroll, pens.strs[t.pen] if t.pen < len(pens.strs) else t.pen, t.aw)))
+                        (t.cx, t.cy), new_h - exp_scroll, pens.strs[t.pen] if t.pen < len(pens.strs) else t.pen, t.aw),
+                        {"what": "epilogue", "row": None}))
                 t.shift_origin(t.cy)
                 prev_h = 0
+                fresh = True
+                contract = True       # "\r\n" + origin shift: a known state again
         elif op[0] == "erase":
+            above = [[t.cell(y, x) for x in range(t.W)] for y in (-2, -1)]
             feed(t, outs[i + 1], pens)
-            if (t.cx, t.cy) != (0, 0) or t.pen != 0 or t.aw != 1:
-                fails.append((i, "erase", "after erase: cursor %r pen %r autowrap %d" % ((t.cx, t.cy), t.pen, t.aw)))
-            for y in range(prev_h + 1):
-                for x in range(t.W):
-                    if not cell_equiv(t.cell(y, x), ([32], 0, 0), pens):
-                        fails.append((i, "erase", "after erase cell (%d,%d) still shows %r" % (y, x, t.cell(y, x))))
-                        break
+            if contract:
+                if (t.cx, t.cy) != (0, 0) or t.pen != 0 or t.aw != 1:
+                    fails.append((i, "erase", "after erase: cursor %r pen %r autowrap %d" % ((t.cx, t.cy), t.pen, t.aw),
+                                  {"what": "cursor", "row": None}))
+                for y in range(prev_h + 1):
+                    for x in range(t.W):
+                        if not cell_equiv(t.cell(y, x), ([32], 0, 0), pens):
+                            fails.append((i, "erase", "after erase cell (%d,%d) still shows %r" % (y, x, t.cell(y, x)),
+                                          {"what": "cell", "row": y}))
+                            break
+                if t.minrow < 0 or above != [[t.cell(y, x) for x in range(t.W)] for y in (-2, -1)]:
+                    fails.append((i, "rows-owned", "erase touched rows above the origin (cursor row %d)" % t.minrow,
+                                  {"what": "rows-above", "row": None}))
             prev_h = 0
+            fresh = True
         else:
             feed(t, outs[i + 1], pens)
             t.shift_origin(t.cy)
             prev_h = 0
+            if not fresh:
+                contract = False      # bare reset() away from a fresh state: out of contract
+            fresh = True
     return fails
